@@ -722,6 +722,85 @@ def gen_rel(ctx):
     return cases
 
 
+def rand_triple(rng):
+    lc = rng.randrange(0, 5)
+    return lc, rng.randrange(0, 5 - lc), rng.randrange(0, 5)
+
+
+def gen_upd(ctx):
+    """Relational cases that change the filters with lzma_filters_update(): lc/lp/pb after LZMA_SYNC_FLUSH (inside a Block),
+    the whole chain after LZMA_FULL_FLUSH / LZMA_FULL_BARRIER (between Blocks); single-threaded and threaded Stream encoders."""
+    rng, quick = ctx.rng, ctx.quick()
+    cases = []
+    for i in range(70 if quick else 400):
+        mode = rng.choice(("sync", "sync", "full", "mixed", "mt", "mt"))
+        n = rng.choice((rng.randrange(300, 6000), rng.randrange(6000, 90000), rng.randrange(90000, 260000 if quick else 900000)))
+        data = gen_data(rng, n, rng.choice((2, 2, 3, 3, 3, 0)))
+        check = rng.choice((0, 1, 4, 10))
+
+        def l2tok(dict_size):
+            lc, lp, pb = rand_triple(rng)
+            return "L2:%d:%d:%d:%d:%d:%d:%d:%d:%d" % (rng.choice((0, 1, 3, 4, 6)), dict_size, lc, lp, pb, rng.choice((-1, 1, 2)),
+                                                      rng.choice((-1, 8, 64, 273)), rng.choice((-1, 3, 4, 0x14)), rng.choice((-1, 0, 4)))
+
+        def plain_chain(dict_size):
+            pre = ["DELTA:%d" % rng.choice((1, 2, 4, 256))] if rng.random() < 0.3 else []
+            return pre + [l2tok(dict_size)]
+
+        trips = []
+        if mode == "sync":
+            fm, kind, chains = 1, "st", [plain_chain(rng.choice((4096, 65536, 1 << 20)))]
+        elif mode == "full":
+            fm, kind = rng.choice((2, 3)), "st"
+            chains = [rand_rel_chain(rng, False) for _ in range(rng.choice((2, 3, 4)))]
+        elif mode == "mixed":
+            fm, kind = 4, "st"
+            chains = [plain_chain(rng.choice((4096, 65536, 1 << 20))) for _ in range(rng.choice((2, 3)))]
+        else:
+            fm, kind = rng.choice((2, 3)), "mt"
+            chains = []
+            for _ in range(rng.choice((2, 3))):
+                toks = rand_rel_chain(rng, False)
+                toks[-1] = ":".join(toks[-1].split(":")[:2] + [str(rng.choice((4096, 65536, 1 << 20)))] + toks[-1].split(":")[3:])
+                chains.append(toks)
+        if fm in (1, 4):
+            while len(trips) < rng.choice((2, 3, 4)):
+                t = rand_triple(rng)
+                if not trips or t != trips[-1]:
+                    trips.append(t)
+        threads, bs = (rng.choice((1, 2, 3)), rng.choice((0, 5000, 65536, 100000))) if kind == "mt" else (1, 0)
+        line = "upd %s %d %d %d %d %d %s %s" % (kind, check, threads, bs, rng.getrandbits(30), fm, hexs(data), " / ".join(" ".join(c) for c in chains))
+        if trips:
+            line += " = " + " ".join("P:%d:%d:%d" % t for t in trips)
+        cases.append(dict(line=line, api="upd", check=check, data=data, ids=chain_ids(chains[0]), chains=[chain_ids(c) for c in chains],
+                          mode=mode, weight=3 * n + 2000))
+    return cases
+
+
+def judge_upd(c, events_tok, blocks, out):
+    """Expectations specific to `upd` cases; returns a reason string or None."""
+    events = []
+    for e in events_tok.split(","):
+        off, kind, idx, props, ret = e.split(":")
+        if ret != "0":
+            return "lzma_filters_update returned %s (event %s)" % (ret, e)
+        events.append((int(off), kind, int(idx), int(props)))
+    dpos = 0
+    for b in blocks:
+        idx = [ev[2] for ev in events if ev[1] in "IF" and ev[0] <= dpos][-1]
+        if not chain_matches(b, c["chains"][idx]):
+            return "Block at data offset %d lists filters %s, but chain %d %s was in force" % (dpos, b["ids"], idx, c["chains"][idx])
+        dpos += b["us"]
+    eff = None
+    for off, pb in L.stream_chunk_props(out, c["check"]):
+        if pb is not None:
+            eff = pb
+        want = [ev[3] for ev in events if ev[0] <= off][-1]
+        if eff != want:
+            return "LZMA chunk at data offset %d is under properties byte %s, but lc/lp/pb byte %d was in force there" % (off, eff, want)
+    return None
+
+
 def gen_bound_cases(ctx):
     rng, quick = ctx.rng, ctx.quick()
     lines = []
@@ -883,6 +962,8 @@ def tie_lines(c, ftoks, stats):
     """-> (list of alternative model ops, expectation suffix) or a string saying why the case is not tied.
     One alternative normally; two when "fell back to uncompressed chunks" cannot be told from the bytes alone."""
     api, out, data, check = c["api"], c["out"], c["data"], c["check"]
+    if api == "upd":
+        return "filters-updated-mid-stream"
     toks = c["line"].split()
     if len(data) > TIE_MAX_INPUT:
         return "input-too-large"
@@ -1080,7 +1161,7 @@ def run(ctx):
     ctx.cov["correspondence"] = {"functional_ops": len(lines), "functional_mismatches": mism, "model_ran": m_out is not None}
 
     # ---------------- K (relational) ----------------
-    cases = gen_rel(ctx)
+    cases = gen_rel(ctx) + gen_upd(ctx)
     rlines = [c["line"] for c in cases]
     r_out, fail = run_parts(exe, rlines, [c["weight"] for c in cases])
     if fail is not None:
@@ -1089,7 +1170,7 @@ def run(ctx):
     vlines, vidx = [], []
     rel_bad = 0
     for i, c in enumerate(cases):
-        ctx.count("rel:" + c["api"])
+        ctx.count("rel:" + c["api"] + (":" + c["mode"] if c["api"] == "upd" else ""))
         ctx.count("rel-check:%d" % c["check"])
         ctx.count("rel-size:" + ("0" if not c["data"] else "<64K" if len(c["data"]) < 65536 else "<2M" if len(c["data"]) < (1 << 21) else ">=2M"))
         t = (r_out[i] or "").split(" ")
@@ -1144,10 +1225,17 @@ def run(ctx):
             if st != "ok":
                 viol("Stream produced by the encoder is not valid / metadata untruthful: " + summ)
                 continue
-            if any(not chain_matches(b, c["ids"]) for b in blocks):
+            if c["api"] == "upd":
+                why = judge_upd(c, t[3], blocks, out)
+                if why:
+                    viol("after lzma_filters_update(): " + why, {"events": t[3], "measured": summ})
+                    continue
+                c["py"] = (st, summ + " props=" + L.show_chunk_props(L.stream_chunk_props(out, c["check"])))
+                ctx.count("rel-upd-events:" + ("1" if t[3].count(",") == 0 else "2-4" if t[3].count(",") < 4 else ">=5"))
+            elif any(not chain_matches(b, c["ids"]) for b in blocks):
                 viol("Block Header filter chain differs from the configuration: " + summ)
                 continue
-            if c["api"] == "mt" and not all(b["has_cs"] and b["has_us"] for b in blocks):
+            if (c["api"] == "mt" or c.get("mode") == "mt") and not all(b["has_cs"] and b["has_us"] for b in blocks):
                 viol("threaded encoder left a size field out of a Block Header: " + summ)
                 continue
             w = second_decoder(out, c["data"], "xz")
@@ -1155,7 +1243,7 @@ def run(ctx):
                 viol(w)
                 continue
             ctx.count("rel-blocks:" + ("0" if not blocks else "1" if len(blocks) == 1 else "2-9" if len(blocks) < 10 else ">=10"))
-            vlines.append("valxz %d %s %s" % (c["check"], hexs(c["data"]), hexs(out)))
+            vlines.append("%s %d %s %s" % ("valxzp" if c["api"] == "upd" else "valxz", c["check"], hexs(c["data"]), hexs(out)))
         vidx.append(i)
     rel_model_mism = 0
     if model_ok and vlines:
@@ -1242,11 +1330,11 @@ def replay(ctx, path):
         bad = judge_func(r["op"], out[0])
     elif op == "xbound":
         bad = None if (t[0] == "0" and t[-1] == "ok") else "ret=%s" % t[0]
-    elif op in ("easy", "sbe", "strm", "mt"):
+    elif op in ("easy", "sbe", "strm", "mt", "upd"):
         toks = r["op"].split()
-        hexpos = {"easy": 4, "sbe": 3, "strm": 4, "mt": 6}[op]
+        hexpos = {"easy": 4, "sbe": 3, "strm": 4, "mt": 6, "upd": 7}[op]
         data = unhex(toks[hexpos])
-        check = int(toks[2] if op == "easy" else toks[1])
+        check = int(toks[2] if op in ("easy", "upd") else toks[1])
         if t[0] != "0" or t[2] != "ok":
             bad = "ret=%s rt=%s" % (t[0], t[2])
         else:
